@@ -33,18 +33,22 @@ CFG = {
         # pipeline
         "Leptos.ServerFn.C13_pipeline_refines_direct_partial",
         "Leptos.ServerFn.C13_pipeline_refines_direct",
-        "Leptos.ServerFn.C13_patchurl_witness",
-        "Leptos.ServerFn.C13_pipeline_refines_direct_full_false",
         "Leptos.ServerFn.C13_table_methods_agree",
-        "Leptos.ServerFn.C13_table_slot_mismatch",
+        "Leptos.ServerFn.C13_table_slots_agree",
+        # regression witnesses for the repaired F-C13-1 (old table)
+        "Leptos.ServerFn.C13_patchurl_witness",
+        "Leptos.ServerFn.C13_pipeline_refines_direct_old_false",
+        "Leptos.ServerFn.C13_table_slot_mismatch_old",
         "Leptos.ServerFn.C13_status_rule",
         "Leptos.ServerFn.hexCodec_roundtrip",
-        # streaming text through the generic back end
-        "Leptos.ServerFn.C13_text_stream_witness",
-        "Leptos.ServerFn.C13_text_stream_full_false",
-        "Leptos.ServerFn.C13_text_stream_partial",
-        "Leptos.ServerFn.C13_text_stream_ascii",
+        # streaming text: any chunking of any text (decode_text_chunks), generic back end
+        "Leptos.ServerFn.C13_text_stream",
+        "Leptos.ServerFn.C13_text_stream_generic",
+        "Leptos.ServerFn.prefix_analysis",
         "Leptos.ServerFn.C13_rechunk_flatten",
+        # regression witnesses for the repaired F-C13-2 (old per-chunk decoder)
+        "Leptos.ServerFn.C13_text_stream_witness",
+        "Leptos.ServerFn.C13_text_stream_old_false",
     ],
     "harness_pkg": "hx-c13",
     "harness_bin": "c13",
@@ -76,7 +80,8 @@ CFG = {
         "ServerFnErrorEncoding::{encode, decode}", "FromServerFnError::{ser, de}", "ServerFnError::from_server_fn_error",
         "ServerFnUrlError::{to_url, decode_err, strip_error_info}", "Http::{run_client, run_server}", "ServerFn::run_on_server",
         "Res::error_response (generic)", "Req for http::Request<Bytes> (as_query, try_into_string, try_into_bytes, try_into_stream)",
-        "IntoReq/FromReq of GetUrl, PostUrl, DeleteUrl, PatchUrl, PutUrl, Post<C>, Patch<C>, Put<C>, StreamingText (per-chunk from_utf8)",
+        "IntoReq/FromReq of GetUrl, PostUrl, DeleteUrl, PatchUrl, PutUrl, Post<C>, Patch<C>, Put<C>",
+        "decode_text_chunks (FromReq/FromRes of StreamingText: incomplete UTF-8 tail carried to the next chunk)",
     ],
     "assumptions": [
         "server_fn feature `multipart` (MultipartFormData) is excluded: its dependency `multer` is not in the offline registry",
@@ -92,8 +97,9 @@ CFG = {
                 "(text and UTF-8 wire level); base64url decode(encode bs) = bs by induction over all byte strings; form-urlencoded "
                 "append/parse round trip and the URL-embedded error round trip after any earlier query; all modelled decoders are total "
                 "and map every failure to a declared error variant; for lawful codecs client(transport(server)) = direct call for Ok and "
-                "Err on every input encoding whose halves agree (partial: the full statement is refuted for PatchUrl/PutUrl, F-C13-1; "
-                "text streams through the generic back end are refuted for scalars straddling a 16-byte chunk, F-C13-2); tied to the "
+                "Err on every input encoding of the library (full, after the repair of F-C13-1: PatchUrl/PutUrl read the body); a text "
+                "stream cut into chunks at arbitrary byte positions is reassembled to exactly the text sent (full, after the repair of "
+                "F-C13-2); kernel-checked regression witnesses for both old behaviours; tied to the "
                 "code by a differential run of the real server_fn crate against the compiled model",
         "design_ref": "DESIGN.md §7 C13",
         "note": "codec internals (serde etc.) trusted, their round-trip law validated differentially; corruption runs are testing",
